@@ -56,6 +56,42 @@ def subdir(name):
     return d
 
 
+
+# --------------------------------------------------------------------------------------------------
+# object history (a dimension every model scenario carries)
+# --------------------------------------------------------------------------------------------------
+HISTORIES = [[], [], [], [], [], ["reload"], ["deepcopy"], ["prepredict"], ["refit"], ["prepredict", "reload"]]
+
+
+def derive_history(scn):
+    """The properties speak about 'a fitted model', whatever its past: half of all scenarios use a fresh object, the others
+    one that was fitted twice, has already predicted, was deep-copied, or went through save -> load into a freshly constructed
+    object.  The choice is a function of the scenario's content (no random stream is consumed; replay files carry it)."""
+    if "history" not in scn:
+        key = json.dumps([scn.get("kind"), scn.get("mode"), scn.get("metric"), scn.get("I_train"), scn.get("Y"), scn.get("Q"), scn.get("U")], sort_keys=True)
+        h = int(hashlib.sha256(key.encode()).hexdigest()[:8], 16) % len(HISTORIES)
+        hist = list(HISTORIES[h])
+        if scn.get("mode") == "table":      # a lambda distance_fn cannot be pickled
+            hist = [x for x in hist if x != "reload"]
+        scn["history"] = hist
+    return scn["history"]
+
+
+def apply_history_step(model, step):
+    """reload / deepcopy -> the object that continues the scenario."""
+    import copy
+
+    if step == "deepcopy":
+        return copy.deepcopy(model)
+    if step == "reload":
+        path = os.path.join(subdir("reload"), "m-%d.pkl" % os.getpid())
+        model.save(path)
+        m2 = type(model)()          # default arguments: another metric, no pre-computed distances
+        m2.load(path)
+        os.remove(path)
+        return m2
+    return model
+
 # --------------------------------------------------------------------------------------------------
 # importing the implementation
 # --------------------------------------------------------------------------------------------------
